@@ -945,5 +945,6 @@ func main() {
 	runQR()
 	runDM()
 	runOneD()
+	runHistory()
 	chk.Finish()
 }
